@@ -35,7 +35,8 @@ class Gen:
     of every signal so that it can decide where a marker is needed); all verdicts are computed
     from the dumped netlist, never from these beliefs."""
 
-    def __init__(self, rng, name, size, flavor, use_mem=False, use_unk=False, use_c2s=False):
+    def __init__(self, rng, name, size, flavor, use_mem=False, use_unk=False, use_c2s=False, use_ext=False):
+        self.use_ext = use_ext
         self.r, self.name, self.size, self.flavor = rng, name, size, flavor
         self.use_mem, self.use_unk, self.use_c2s = use_mem, use_unk, use_c2s
         self.lines = ["design " + name]
@@ -73,6 +74,14 @@ class Gen:
             e.setdefault(int(t[2]), []).append(int(t[1]))
         elif k == "out":
             self.observed.add(int(t[2]))
+        elif k == "ext":
+            # side-effect modules keep their inputs alive; otherwise the inputs are observable through the outputs
+            ins = [int(re.split("[:@]", t[i + 1])[0]) for i in range(1, len(t) - 1) if t[i] == "in"]
+            outs = [int(re.split("[:@]", t[i + 1])[0]) for i in range(1, len(t) - 1) if t[i] == "out"]
+            if "se" in t[1:]:
+                self.observed.update(ins)
+            for a in ins:
+                for b in outs: e.setdefault(a, []).append(b)
         elif k == "mrd":
             e.setdefault(int(t[3]), []).append(int(t[1])); e.setdefault(("m", int(t[2])), []).append(int(t[1]))
         elif k == "mwr":
@@ -273,6 +282,28 @@ class Gen:
         self.emit(f"bind {s} {d}")
         self.used.add(d)
 
+    def step_ext(self, t):
+        """external module with 1..4 input ports on (mostly) different clocks and 0..2 output ports"""
+        r = self.r
+        cl = self.clocks()
+        k = r.choice([1, 2, 2, 3, 3, 4])
+        args = []
+        for _ in range(k):
+            c = t if r.random() < 0.4 else r.choice(cl)
+            roll = r.random()
+            raw = self.step_const() if roll < 0.12 else self.pick(c)
+            d = self.use(raw, c)
+            args.append(f"in {d}{r.choice(':@')}{c}")
+        nout = r.choice([0, 1, 1, 2])
+        outs = []
+        for _ in range(nout):
+            c = r.choice(cl)
+            s = self.new(('C', c))
+            outs.append(s)
+            args.append(f"out {s}{r.choice(':@')}{c}")
+        se = nout == 0 or r.random() < 0.3
+        self.emit("ext " + ("se " if se else "") + " ".join(args))
+
     def step_mem(self, t):
         r = self.r
         if not self.mems or r.random() < 0.3:
@@ -329,6 +360,8 @@ class Gen:
                     self.emit(f"area_begin blk{self.depth}_{r.randrange(100)}"); self.depth += 1
             elif x < 0.95 and self.use_mem:
                 self.step_mem(t)
+            elif x < 0.955 and self.use_ext:
+                self.step_ext(t)
             elif x < 0.97 and self.use_c2s:
                 s = self.new(('C', t)); self.emit(f"clk2sig {s} {t}")
             else:
@@ -364,7 +397,7 @@ def gen_batch(seed, count, tier, tag="g"):
         else:
             size = rng.choice([8, 16, 24, 40, 60, 90, 120])
         g = Gen(rng, f"{tag}{seed}_{i}", size, fl, use_mem=rng.random() < 0.15,
-                use_unk=rng.random() < 0.10, use_c2s=rng.random() < 0.08)
+                use_unk=rng.random() < 0.10, use_c2s=rng.random() < 0.08, use_ext=rng.random() < 0.35)
         lines = g.run()
         progs.append(dict(name=g.name, lines=lines, flavor=fl, crossings=g.crossings,
                           unmarked=g.unmarked, wrong=g.wrong, mem=g.use_mem, unk=g.use_unk))
@@ -416,6 +449,54 @@ def gen_drive_family(seed, tag="d"):
     return progs
 
 
+def gen_ext_family(seed, tag="x"):
+    """Systematic family: ExternalModule with k = 1..4 clocked input ports; the odd input sits on every
+    position (first / middle / last) and is an unmarked foreign-domain signal, a correctly marked one,
+    a clock-less (UNKNOWN domain) pin or a constant; all other ports are driven from their own domain.
+    The verdict is computed by the model / oracle from the dump."""
+    rng = random.Random(seed * 15485863 + 11)
+    progs = []
+    n = 0
+    for k in (1, 2, 3, 4):
+        for pos in list(range(k)) + [None]:
+            for what in (("unmarked", "marked", "unknown", "const") if pos is not None else ("clean",)):
+                f = rng.choice([10000, 25000, 100000])
+                L = [f"design {tag}{seed}_{n}", f"clock 0 root {f} clkA", f"clock 1 root {f * 3} clkB",
+                     f"clock 2 derive 0 {rng.choice(['same', 'rst', 'attr'])}",
+                     "pin 0 0", "pin 1 1", "pin 2 2", "reg 3 0 0 1 -", "reg 4 1 1 1 -", "reg 5 2 2 0 -"]
+                own = {0: [0, 3, 5, 2], 1: [1, 4], 2: [2, 5, 0, 3]}      # clkA and its derived clock are one domain
+                nxt = 6
+                args = []
+                pcs = [rng.choice([0, 1, 2]) for _ in range(k)]
+                if k >= 2 and len(set(c == 1 for c in pcs)) == 1:        # at least two different pin sources among the ports
+                    pcs[rng.randrange(k)] = 1 if pcs[0] != 1 else 0
+                for i, c in enumerate(pcs):
+                    sep = rng.choice(":@")
+                    if i != pos:
+                        args.append(f"in {rng.choice(own[c])}{sep}{c}")
+                        continue
+                    foreign = rng.choice(own[1] if c != 1 else own[0])
+                    fclk = 1 if c != 1 else rng.choice([0, 2])
+                    if what == "unmarked":
+                        args.append(f"in {foreign}{sep}{c}")
+                    elif what == "marked":
+                        L.append(f"cdc {nxt} {foreign} {fclk} {c}"); args.append(f"in {nxt}{sep}{c}"); nxt += 1
+                    elif what == "unknown":
+                        L.append(f"pin {nxt} -"); args.append(f"in {nxt}{sep}{c}"); nxt += 1
+                    else:
+                        L.append(f"const {nxt} {rng.randrange(16)}"); args.append(f"in {nxt}{sep}{c}"); nxt += 1
+                oc = rng.choice([0, 1, 2])
+                se = rng.random() < 0.5
+                L.append("ext " + ("se " if se else "") + " ".join(args) + f" out {nxt}:{oc}")
+                L.append(f"out {oc} {nxt}")
+                L.append("end")
+                progs.append(dict(name=f"{tag}{seed}_{n}", lines=L, flavor="extmodule", crossings=1,
+                                  unmarked=1 if what in ("unmarked", "unknown") else 0, wrong=0, mem=False, unk=what == "unknown",
+                                  family=dict(variant=f"ext{k}", drive=("clean" if pos is None else ("first" if pos == 0 else "last" if pos == k - 1 else "middle") if k > 1 else "only"), direction="", marked=what)))
+                n += 1
+    return progs
+
+
 # ----------------------------------------------------------------------------
 # dump parsing + independent oracle
 # ----------------------------------------------------------------------------
@@ -441,6 +522,8 @@ def parse_dump(path):
                 d["ins"] = [None if x == "-" else tuple(map(int, x.split("."))) for x in d["ins"].split(",")] if d["ins"] else []
                 d["clocks"] = [None if x == "-" else int(x) for x in d["clocks"].split(",")] if d["clocks"] else []
                 d["nout"] = int(d["nout"])
+                for key in ("inclk", "outclk"):
+                    d[key] = [None if x == "-" else int(x) for x in d.get(key, "").split(",")] if d.get(key) else []
                 cur["nodes"].append(d)
             elif k == "rel":
                 cur["rel"][(int(t[1]), int(t[2]))] = (t[3], t[4])
@@ -490,6 +573,8 @@ def oracle(blk):
         for o in range(nd["nout"]):
             if k == "cdc":
                 src[(v, o)] = dom_of(nd["clocks"][1])
+            elif k == "ext":
+                src[(v, o)] = dom_of(nd["outclk"][o])          # every output of an external module is a source of its declared clock
             elif k == "memport":
                 deps[(v, o)] = [] if o == 2 else [d for i, d in enumerate(nd["ins"]) if i != 6 and d is not None]
             elif nd["clocks"]:
@@ -518,6 +603,14 @@ def oracle(blk):
         if k in ("sig2clk", "sig2rst"):
             continue
         per_in = [reach.get(d, set()) if d is not None else set() for d in nd["ins"]]
+        if k == "ext":
+            # every port on its own: the signal must be constant or of the port's declared clock
+            for i, srcs in enumerate(per_in):
+                want = dom_of(nd["inclk"][i]) if i < len(nd["inclk"]) else "U"
+                if any(s == "U" or want == "U" or s != want for s in srcs):
+                    sites.append(v)
+                    break
+            continue
         if k == "cdc":
             want = dom_of(nd["clocks"][0])
             if any(s == "U" or want == "U" or s != want for s in per_in[0]):
@@ -749,6 +842,17 @@ def shrink(prog, kind, harness, deadline):
                 elif k == "mwr":
                     if int(t[1]) not in defined_m or int(t[2]) not in defined_c: return False
                     if int(t[3]) not in defined_s or int(t[4]) not in defined_s: return False
+                elif k == "ext":
+                    for i in range(1, len(t) - 1):
+                        if t[i] in ("in", "out", "clkout"):
+                            a, b = re.split("[:@]", t[i + 1])
+                            if t[i] == "in" and (int(a) not in defined_s or int(b) not in defined_c): return False
+                            if t[i] == "out":
+                                if int(b) not in defined_c: return False
+                                defined_s.add(int(a))
+                            if t[i] == "clkout":
+                                if int(b) not in defined_c: return False
+                                defined_c.add(int(a))
                 elif k == "clkdrive":
                     if int(t[1]) not in defined_c or int(t[2]) not in defined_s: return False
                 elif k == "clk2sig":
@@ -787,7 +891,7 @@ def main():
     seed = V.seed()
     WORK.mkdir(parents=True, exist_ok=True)
     V.build_gatery()
-    harness = V.build_harness("C12_cdc")
+    harness = V.build_harness("C12_cdc", extra_flags=["-fno-access-control"])   # reads ExternalModule::Node_External_Exposed::m_inClock
     res = V.check_properties(CID)
     driver = V.build_model(CID)
     if "--build-only" in argv:
@@ -802,10 +906,11 @@ def main():
     else:
         count = 400 if tier == "quick" else 8000
         # C12_NO_CORPUS=1 is a test knob (used to confirm that the generated designs alone catch a mutation)
-        progs = ([] if os.environ.get("C12_NO_CORPUS") else corpus_programs()) + gen_drive_family(seed) + gen_batch(seed, count, tier)
+        progs = ([] if os.environ.get("C12_NO_CORPUS") else corpus_programs()) + gen_drive_family(seed) + gen_ext_family(seed) + gen_batch(seed, count, tier)
         if tier == "thorough":
             for j in range(1, 6):
                 progs += gen_drive_family(seed * 100 + j, tag="e")
+                progs += gen_ext_family(seed * 100 + j, tag="y")
 
     broken = []
     if not res["ok"]:
@@ -845,7 +950,7 @@ def main():
     rep.cov["distinct_nontrivial"] = len(distinct)
     rep.cov["rule"] = ("seeded random design programs (2-6 clocks incl. derived clocks sharing / not sharing the parent's pin source, "
                        "fan-in from several domains, registers with enables, pins, constants, forward references and register loops, "
-                       "areas, optional memories / clock-less pins) built through the real frontend; a design counts as non-trivial when it "
+                       "areas, optional memories / clock-less pins / external modules with 1-4 clocked input ports / clock nets driven by logic in one or both views) built through the real frontend; a design counts as non-trivial when it "
                        "contains at least one edge between signals of different pin sources (marked, unmarked or wrongly marked) and "
                        "postprocess() ended in accept or CDC-reject; distinct = distinct program text")
     rep.cov["samples"] = [dict(program=p["lines"], flavor=p["flavor"], outcome=dumps.get(p["name"], {}).get("verdict"))
@@ -859,17 +964,19 @@ def main():
     for p in progs:
         if p.get("family"):
             fm = p["family"]
-            key = f"{fm['variant']}/{fm['drive']}/{'marked' if fm['marked'] else 'unmarked'}"
+            mk = fm['marked'] if isinstance(fm['marked'], str) else ('marked' if fm['marked'] else 'unmarked')
+            key = f"{fm['variant']}/{fm['drive']}/{mk}"
             v = dumps.get(p["name"], {}).get("verdict", "?").split()[0]
             fam.setdefault(key, {}).setdefault(v, 0)
             fam[key][v] += 1
-    rep.cov["histogram"]["derived_clock_family(variant/clock-net-driver/marking -> outcome)"] = fam
+    rep.cov["histogram"]["families(derived clock: variant/clock-net-driver/marking; external module: ports/position of the odd input/kind -> outcome)"] = fam
     rep.cov["model_lines_compared"] = st["lines_compared"]
     rep.assumptions = [
         "the Coq definitions relation / check_valid / pin_source / process are hand transcriptions of getOutputClockRelation, checkValidInputClocks, "
         "getClockPinSource and the inferClockDomains loop; their agreement with the C++ is established per run by the comparisons above (sampled designs only)",
-        "node classes outside hlim/ that override the two functions are not modelled and not generated: frontend ExternalModule::Node_External_Exposed "
-        "(every input compared with its declared clock, every output a source of its declared clock) and the vendor primitives ALTSYNCRAM / ALTDPRAM / RAMBxE2; "
+        "frontend ExternalModule::Node_External_Exposed is modelled (kind KExt: one declared clock per input port, every output a source of its declared clock); "
+        "the harness reads its private members m_inClock / m_outClockRelations (compiled with -fno-access-control). "
+        "Still not modelled and not generated: the vendor primitives ALTSYNCRAM / ALTDPRAM / RAMBxE2 with their own overrides; "
         "any other node with more than one clock port would hit HCL_ASSERT in the C++ base rule",
         "memory contents are not a signal: data written under one clock and read under another through Node_Memory carries no domain (this is what tests/frontend/CDC.cpp expects)",
         "a source without a clock (domain UNKNOWN, only constructible through the hlim API) is treated as an anonymous domain that may not be combined with anything non-constant",
